@@ -169,6 +169,8 @@ def check(pid, tier, replay=None):
     rng = random.Random(sd)
     binary = vlib.go_build_test("store")
     work = vlib.scratch("store")
+    if replay and os.path.exists(os.path.join(replay, "observation.json")):
+        return vlib.replay_observation(pid, "SectorContractTrace", replay)
     if replay:
         sp = os.path.join(replay, "script.ndjson")
         rc, out = vlib.run_harness(binary, "TestScripts", {"STORE_SCRIPTS": sp, "STORE_OUT": work})
@@ -295,6 +297,22 @@ def check(pid, tier, replay=None):
         violations += 1
         print("VIOLATION property=%s replay=%s" % (pid, path))
         log("  rejected trace %s at line %d: %s" % (tid, rj["line"], json.dumps(rj["event"])[:300]))
+    if pid == "C01":
+        # the sector sharing of the block-device backed block (SectorWriter.tla): concurrent neighbouring uploads in
+        # arbitrary chunkings must read back, validated, exactly as uploaded
+        import fam_extra
+        sst, str_, smodels, sscripts, sn, srej, svs, smv = fam_extra.sector_conformance(tier, binary, os.path.join(work, "sector"), sd)
+        tot_states += sst
+        tot_trans += str_
+        n_traces += sn
+        vstates += svs
+        cov["sector_sharing"] = {"models": smodels, "scripts_replayed": len(sscripts), "design_mutant_killed": smv}
+        for rj in srej:
+            path = vlib.save_replay(pid, "s%d_%d" % (sd, violations), {"observation.json": rj["event"],
+                                                                         "README": "sector-sharing observation (SectorContractTrace.tla); re-run with VERIF_SEED=%d\n" % sd})
+            violations += 1
+            print("VIOLATION property=%s replay=%s" % (pid, path))
+            log("  rejected sector observation: %s" % json.dumps({k: v for k, v in rj["event"].items() if k != "snaps"})[:400])
     if summ["drift_scripts"]:
         for d in (summ["first_drifts"] or [])[:3]:
             log("DRIFT property=%s %s" % (pid, json.dumps(d)[:500]))
